@@ -22,6 +22,39 @@ pub fn normalize_rel_path(root: &Path, path: &Path) -> String { path.strip_prefi
 //@@ end
 //@@ fn crates/rip-tools/src/builtins/write.rs run_write
 //@@ end
+// the foreground shell tool: no process is started; the stand-in records the working directory it was given
+pub struct ShellArgs { pub command: String, pub cwd: Option<String>, pub env: Option<std::collections::HashMap<String, String>>, pub max_bytes: Option<usize> }
+thread_local! { static CWD: RefCell<Option<PathBuf>> = RefCell::new(None); }
+pub struct ExitStatus; impl ExitStatus { pub fn code(&self) -> Option<i32> { Some(0) } }
+pub struct Child { pub stdout: Option<()>, pub stderr: Option<()> }
+impl Child { pub fn wait(&mut self) -> Result<ExitStatus, std::io::Error> { Ok(ExitStatus) } }
+pub struct Command;
+impl Command {
+    pub fn new(_p: &str) -> Command { Command } pub fn args(&mut self, _a: &[&str]) {} pub fn stdout(&mut self, _s: std::process::Stdio) {} pub fn stderr(&mut self, _s: std::process::Stdio) {}
+    pub fn envs(&mut self, _e: &std::collections::HashMap<String, String>) {}
+    pub fn current_dir(&mut self, p: PathBuf) { CWD.with(|c| *c.borrow_mut() = Some(p)); }
+    pub fn spawn(&mut self) -> Result<Child, std::io::Error> { Ok(Child { stdout: Some(()), stderr: Some(()) }) }
+}
+pub struct StreamCapture { pub preview_lines: Vec<String> }
+impl StreamCapture { pub fn as_json(&self) -> serde_json::Value { serde_json::Value } }
+pub fn capture_stream(_s: Option<()>, _c: &BuiltinToolConfig, _m: usize) -> StreamCapture { StreamCapture { preview_lines: vec![] } }
+pub mod tokio { macro_rules! join { ($a:expr, $b:expr, $c:expr) => { ($a, $b, $c) } } pub(crate) use join; }
+//@@ fn crates/rip-tools/src/builtins/shell.rs run_command rules=R3
+//@@ end
+fn shell_clause() -> bool {
+    let root = PathBuf::from("/ws/root");
+    for cwd in ["", ".", "sub", "sub/deeper/", "./sub", "..", "../x", "sub/../..", "sub/../../etc", "/", "/etc", "//x", "a/./b", " ", "..\\x"] {
+        CWD.with(|c| *c.borrow_mut() = None);
+        let args = ShellArgs { command: "true".into(), cwd: Some(cwd.to_string()), env: None, max_bytes: None };
+        let cfg = BuiltinToolConfig { workspace_root: root.clone() };
+        let _ = run_command("bash", &["-c", "true"], &args, &cfg, 64);
+        if let Some(d) = CWD.with(|c| c.borrow().clone()) {
+            let inside = d.strip_prefix(&root).map(|r| !r.components().any(|c| matches!(c, Component::ParentDir | Component::RootDir | Component::Prefix(_)))).unwrap_or(false);
+            if !inside { println!("WITNESS {{\"function\": \"run_command\", \"cwd_argument\": {:?}, \"working_directory_given_to_the_child\": {:?}, \"workspace_root\": \"/ws/root\"}}", cwd, d); return true; }
+        }
+    }
+    false
+}
 
 fn listing(p: &Path) -> Vec<String> {
     let mut out = vec![];
@@ -29,6 +62,7 @@ fn listing(p: &Path) -> Vec<String> {
     walk(p, p, &mut out); out.sort(); out
 }
 fn main() {
+    if shell_clause() { return; }
     let base = std::env::temp_dir().join(format!("rip-verif-c13w-{}", std::process::id()));
     let _ = fs::remove_dir_all(&base);
     let paths = ["", ".", "./", "a.txt", "d/b.txt", "./d/./b.txt", "d", "d/", "d/.", "..", "../x", "/etc/x", "a.txt/.", ".hidden", " ", "a b"];
